@@ -4,19 +4,19 @@
 # Every lane is a private copy of this checkout under /tmp/lane_<k>/verif (so the Gen/*.lean files regenerated from a
 # changed worktree, and the driver relinked for it, never disturb another lane or /verif itself); seedcheck.sh runs there
 # and the records (seeded/<id>-<m>/) are copied back here afterwards.
-N=$1; JOBS=$2
+N=$1; JOBS=$2; LB=${LANE_BASE:-0}     # LANE_BASE: use /tmp/lane_<LB+1..LB+N> (a batch may still be running in the lower ones)
 cd "$(dirname "$0")/.."
 HERE=$(pwd)
 for k in $(seq 1 $N); do
-  mkdir -p /tmp/lane_$k
-  rsync -a --delete --exclude .git --exclude replays --exclude '.cache/runall' --exclude '.cache/runseeds' $HERE/ /tmp/lane_$k/verif/
+  mkdir -p /tmp/lane_$((LB+k))
+  rsync -a --delete --exclude .git --exclude replays --exclude '.cache/runall' --exclude '.cache/runseeds' $HERE/ /tmp/lane_$((LB+k))/verif/
 done
 run_lane() {
   k=$1
   # all changes of one worktree go to the same lane (the change is applied inside the worktree)
   awk -v n=$N -v k=$k 'NF { if (!($1 in lane)) { lane[$1] = c % n; c++ } if (lane[$1] == k-1) print }' $JOBS | while read WT PID M EXTRA; do
-    ( cd /tmp/lane_$k/verif && SEED_NOREGEN=1 tools/seedcheck.sh $WT $PID $M $EXTRA 2>&1 | sed "s/^/[$PID-$M] /" )
-    mkdir -p $HERE/seeded/$PID-$M && cp -r /tmp/lane_$k/verif/seeded/$PID-$M/. $HERE/seeded/$PID-$M/
+    ( cd /tmp/lane_$((LB+k))/verif && SEED_NOREGEN=1 tools/seedcheck.sh $WT $PID $M $EXTRA 2>&1 | sed "s/^/[$PID-$M] /" )
+    mkdir -p $HERE/seeded/$PID-$M && cp -r /tmp/lane_$((LB+k))/verif/seeded/$PID-$M/. $HERE/seeded/$PID-$M/
   done
 }
 for k in $(seq 1 $N); do run_lane $k & done
